@@ -341,6 +341,46 @@ def run_count(inp):
             one.barrier(*op["qs"], label=op.get("label"))
             seen += len(dt_mod.process_layer(lc.circuit_to_dag(one))[3])
     ncol = len(params.observables[0].results)
+    first = _count_case(spec, params, seen, ncol, "label-count")
+    # the SAME parameter object is reused for a second circuit with a different number of sampling barriers: the count (and
+    # with it the number of result columns) must follow the circuit of this run, not a value left over from the last run
+    ops2 = [op for op in spec["ops"]]
+    labelled = [i for i, op in enumerate(ops2) if op["op"] == "b" and lc.label_padded(op.get("label"))]
+    if labelled and len(labelled) % 2 == 0:
+        del ops2[labelled[0]]
+    else:
+        ops2 = ops2 + [{"op": "b", "qs": list(range(spec["n"])), "label": "SAMPLE_OBSERVABLES"}, {"op": "g1", "name": "x", "params": [], "q": 0}]
+    spec2 = dict(spec, ops=ops2)
+    try:
+        qc2 = copy.deepcopy(lc.build_circuit(spec2).reverse_bits())
+    except Exception:  # noqa: BLE001  (spec format differs: skip the reuse part)
+        return [first]
+    sim_mod.digital_tjm = lambda args: np.zeros((1, args[3].num_mid_measurements + 2))
+    try:
+        sim_mod._run_strong_sim(MPS(spec["n"], state="zeros"), qc2, params, None, parallel=False)  # noqa: SLF001
+    finally:
+        sim_mod.digital_tjm = orig
+    seen2 = 0
+    for op in ops2:
+        if op["op"] == "b":
+            one = lc.QuantumCircuit(spec["n"])
+            one.barrier(*op["qs"], label=op.get("label"))
+            seen2 += len(dt_mod.process_layer(lc.circuit_to_dag(one))[3])
+    ncol2 = len(params.observables[0].results)
+    second = _count_case(spec2, params, seen2, ncol2, "label-count-reused-params")
+    return [first, second]
+
+
+def _count_case(spec, params, seen, ncol, kind):
+    return {"kind": kind, "req": lc.request("count", spec["ops"]), "impl": f"{params.num_mid_measurements} {seen}",
+            "oracle": {"ok": ncol == params.num_mid_measurements + 2 and seen == params.num_mid_measurements,
+                       "detail": f"{kind}: _run_strong_sim counts {params.num_mid_measurements} sampling barriers ({ncol} columns), process_layer recognises {seen}"},
+            "sig": kind + ":" + "|".join(repr(op.get("label")) for op in spec["ops"] if op["op"] == "b"),
+            "nontrivial": any(op["op"] == "b" and op.get("label") is not None for op in spec["ops"]),
+            "input": {"kind": "count", "spec": spec}}
+
+
+def _unused_count_tail(spec, params, seen, ncol):
     return [{"kind": "label-count", "req": lc.request("count", spec["ops"]), "impl": f"{params.num_mid_measurements} {seen}",
              "oracle": {"ok": ncol == params.num_mid_measurements + 2 and seen == params.num_mid_measurements,
                         "detail": f"_run_strong_sim counts {params.num_mid_measurements} sampling barriers ({ncol} columns), process_layer recognises {seen}"},
